@@ -862,6 +862,11 @@ def _class_shape(k):
         if isinstance(st, ast.FunctionDef) and not st.decorator_list and st.args.args:
             methods[st.name] = st
             continue
+        if isinstance(st, ast.FunctionDef) and len(st.decorator_list) == 1 and isinstance(st.decorator_list[0], ast.Name) and st.decorator_list[0].id == "property" \
+                and len(st.args.args) == 1:
+            # a read-only property: x.name reads as the value its getter returns
+            methods["@" + st.name] = st
+            continue
         return None
     if dc and "__init__" in methods:
         return None
@@ -871,7 +876,7 @@ def _class_shape(k):
             for x in ast.walk(m):
                 if isinstance(x, ast.Attribute) and isinstance(x.value, ast.Name) and x.value.id == sn and isinstance(x.ctx, ast.Store) and x.attr not in fields:
                     fields.append(x.attr)
-    if not fields or set(fields) & set(methods):
+    if not fields or set(fields) & {m.lstrip("@") for m in methods}:
         return None
     return fields, defaults, methods, dc
 
@@ -882,6 +887,7 @@ def _pseudo_helper(mod, meth, mapping):
     sn = node.args.args[0].arg
     node.args.args = node.args.args[1:]
     node.name = node.name.strip("_") or "m"
+    node.decorator_list = []
     tr = _SelfFields(sn, mapping)
     node.body = [tr.visit(st) for st in node.body]
     if tr.bad:
@@ -1007,6 +1013,23 @@ def _dissolve_in(tree, mn, kname, shape):
         parent = _parents(tree)
         for n in [n for n in ast.walk(f) if isinstance(n, ast.Name) and n.id == x and isinstance(n.ctx, ast.Load)]:
             a = parent.get(n)
+            if isinstance(a, ast.Attribute) and a.value is n and ("@" + a.attr) in methods and isinstance(a.ctx, ast.Load):
+                hp = _pseudo_helper(mn, methods["@" + a.attr], mapping)
+                if hp is None or hp.is_gen or not hp.expr_form():
+                    return False
+                fake = ast.copy_location(ast.Call(func=ast.Name(id=a.attr, ctx=ast.Load()), args=[], keywords=[]), a)
+                repl = _instantiate(hp, fake, f, None, "expr", shared=set(mapping.values()))
+                if repl is None:
+                    return False
+                holder = parent.get(a)
+                for fname, val in ast.iter_fields(holder):
+                    if val is a:
+                        setattr(holder, fname, repl)
+                    elif isinstance(val, list):
+                        for i, v in enumerate(val):
+                            if v is a:
+                                val[i] = repl
+                continue
             if not (isinstance(a, ast.Attribute) and a.value is n and a.attr in mapping):
                 return False
             holder = parent.get(a)
